@@ -381,7 +381,7 @@ class Replayer:
             e.shutdown(wait=False)
 
     @staticmethod
-    def pump(loop, cond, timeout=3.0):
+    def pump(loop, cond, timeout=2.0):
         """Run the loop ONE iteration at a time (so that a coroutine advances by
         exactly the steps that are ready) until cond() holds."""
         t0 = time.time()
@@ -403,7 +403,7 @@ class Replayer:
         cons = []
         appender = [None]
         obs = []
-        info = {"appends": [], "starts": [], "hang": False, "race": False}
+        info = {"appends": [], "starts": [], "hang": False, "race": False, "unfinished": False}
 
         def observe():
             o = [[S(x) for x in inner.storage], [S(x) for x in th._loaded_strings], bool(th._loaded),
@@ -488,6 +488,7 @@ class Replayer:
                     raise ValueError(k)
                 observe()
         except (Hang, queue.Empty):
+            self.hangs += 1
             info["hang"] = True
             obs.append([-98])
         finally:
@@ -498,11 +499,15 @@ class Replayer:
                 appender[0].join(5)
             for c in cons:
                 if not c["task"].done():
-                    if not self.pump(c["loop"], lambda c=c: c["task"].done(), timeout=3):
+                    # the loader has now run to its end: every load() must come to an end too
+                    if not self.pump(c["loop"], lambda c=c: c["task"].done(), timeout=2):
+                        info["unfinished"] = True
+                        self.hangs += 1
                         c["task"].cancel()
                         self.pump(c["loop"], lambda c=c: c["task"].done(), timeout=2)
                 if c["task"].done() and not c["task"].cancelled():
                     c["task"].exception()
+        info["final_loaded"] = bool(th._loaded)
         info["final_cache"] = [S(x) for x in th._loaded_strings]
         info["final_get_strings"] = [S(x) for x in th.get_strings()]
         info["final_storage"] = [S(x) for x in inner.storage]
@@ -516,6 +521,8 @@ def oracle_threaded(S0, labels, obs, info):
     concurrent = [w for w in info["appends"] if w not in ("before_load", "quiescent")]
     w = concurrent[0] if concurrent else "no_concurrent_append"
     op = "ThreadedHistory.append_string" if concurrent else "ThreadedHistory.load"
+    if info["unfinished"]:
+        return ("a load() did not finish although the loader thread had finished", {"op": op, "when": w, "clause": "finish"}, "")
     last = obs[-1]
     storage_steps = [o[0] for o in obs]
     for ci, (out, fin) in enumerate(last[3]):
@@ -544,7 +551,7 @@ def oracle_threaded(S0, labels, obs, info):
                 return ("threaded load() yielded a non-prefix of the inline sequence", {"op": op, "when": w, "clause": "yield"},
                         "consumer %d yielded %r, inline %r" % (ci, [unS(x) for x in out], [unS(x) for x in inline]))
     # after the replay the loader was let run to the end and every append completed
-    if info["final_cache"] != info["final_storage"][::-1] or info["final_get_strings"] != info["final_storage"]:
+    if info["final_loaded"] and (info["final_cache"] != info["final_storage"][::-1] or info["final_get_strings"] != info["final_storage"]):
         return ("after loading completed the cache is not the storage with every entry exactly once",
                 {"op": op, "when": w, "clause": "cache"},
                 "get_strings() = %r, storage = %r" % ([unS(x) for x in info["final_get_strings"]], [unS(x) for x in info["final_storage"]]))
@@ -620,10 +627,16 @@ def e2e_cases(chk, runner):
 
         async def collect(x):
             return [i async for i in x.load()]
-        inline = with_watchdog(lambda: runner.loop.run_until_complete(collect(FileHistory(runner.path))), 10)
-        th = ThreadedHistory(FileHistory(runner.path))
-        threaded = with_watchdog(lambda: runner.loop.run_until_complete(collect(th)), 10)
-        again = with_watchdog(lambda: runner.loop.run_until_complete(collect(th)), 10)
+        inline = threaded = again = None
+        try:
+            inline = with_watchdog(lambda: runner.loop.run_until_complete(collect(FileHistory(runner.path))), 10)
+            th = ThreadedHistory(FileHistory(runner.path))
+            threaded = with_watchdog(lambda: runner.loop.run_until_complete(collect(th)), 6)
+            again = with_watchdog(lambda: runner.loop.run_until_complete(collect(th)), 6)
+        except Hang:
+            # a load() that never ends; the loop object cannot be reused after the interrupted run
+            runner.loop = asyncio.new_event_loop()
+            return n + 1, (es, inline, threaded if threaded is not None else "HANG", again if threaded is None or again is not None else "HANG")
         n += 1
         chk.count_case([9, [S(e) for e in es]], len(es) > 0)
         if not (inline == threaded == again == es[::-1]) and bad is None:
@@ -698,6 +711,9 @@ def _main(chk, pr, runner, rep):
     races = 0
     whens = {}
     for s0, labels in scheds:
+        if rep.hangs >= 8:
+            chk.note("schedule replay stopped after %d hung schedules" % rep.hangs)
+            break
         obs, info = with_watchdog(lambda: rep.replay(s0, labels), 60)
         if info["race"]:
             races += 1
